@@ -397,7 +397,7 @@ def _is_mut_ref_param(toks, name):
     return False
 
 
-def r5_drain(toks, counts):
+def r5_drain(toks, counts, map_fn='drain_map'):
     """`X.drain(..)` -> `drain_all(&mut X)` where X is a field/ident path; `X.drain()` -> `drain_map(&mut X)`"""
     out = []
     i = 0
@@ -414,41 +414,18 @@ def r5_drain(toks, counts):
                     full = len(inner) == 2 and is_p(inner[0], '.') and is_p(inner[1], '.')
                     empty = len(inner) == 0
                     if full or empty:
-                        # pull the receiver path back out of `out`
+                        # pull the receiver (the whole postfix expression, `?` included) back out of `out`
                         j = len(out) - 1
                         while j >= 0 and out[j][0] == 'ws':
                             j -= 1
                         recv_end = j
-                        while j >= 0:
-                            if is_p(out[j], ')'):
-                                # a call in the receiver chain: jump to its opening parenthesis
-                                depth = 0
-                                while j >= 0:
-                                    if is_p(out[j], ')'):
-                                        depth += 1
-                                    elif is_p(out[j], '('):
-                                        depth -= 1
-                                        if depth == 0:
-                                            break
-                                    j -= 1
-                                j -= 1
-                                while j >= 0 and out[j][0] == 'ws':
-                                    j -= 1
-                                continue
-                            if out[j][0] == 'id':
-                                p = j - 1
-                                while p >= 0 and out[p][0] == 'ws':
-                                    p -= 1
-                                if p >= 0 and is_p(out[p], '.'):
-                                    j = p - 1
-                                    while j >= 0 and out[j][0] == 'ws':
-                                        j -= 1
-                                    continue
-                                break
-                            raise ExtractError('R5: drain receiver is not a simple path')
+                        try:
+                            j = _postfix_start(out, recv_end)
+                        except ExtractError:
+                            raise ExtractError('R5: drain receiver is not a postfix expression')
                         recv = out[j:recv_end + 1]
                         del out[j:]
-                        out.append(('id', 'drain_all' if full else 'drain_map'))
+                        out.append(('id', 'drain_all' if full else map_fn))
                         out.append(('p', '('))
                         if not (len(recv) == 1 and _is_mut_ref_param(toks, recv[0][1])):
                             out.append(('p', '&'))
@@ -1924,7 +1901,7 @@ def r9_enumerate(toks, counts):
 
 R26_SOURCES = ('iter', 'into_iter', 'keys', 'values')
 R26_ADAPTERS = ('filter', 'map', 'filter_map', 'copied', 'cloned')
-R26_TERMINALS = ('collect', 'count')
+R26_TERMINALS = ('collect', 'count', 'for_each')
 
 
 def _flat(toks):
@@ -1979,13 +1956,167 @@ def _body_text(body, indent):
     return '\n'.join([lines[0]] + [indent + l[strip:] if l.strip() else l for l in rest])
 
 
+R26_STANDIN_SOURCES = ('drain_all', 'drain_map', 'drain_hashmap')
+
+
+def _r26_parse_stages(toks, j):
+    """adapters/terminal following position j; returns (stages, end_index) or (None, j)"""
+    n = len(toks)
+    stages = []
+    while True:
+        d = next_sig(toks, j)
+        if d >= n or not is_p(toks[d], '.'):
+            break
+        nm = next_sig(toks, d + 1)
+        if nm >= n or toks[nm][0] != 'id' or toks[nm][1] not in R26_ADAPTERS + R26_TERMINALS:
+            break
+        a = next_sig(toks, nm + 1)
+        turbofish = None
+        if a + 2 < n and is_p(toks[a], ':') and is_p(toks[a + 1], ':') and is_p(toks[a + 2], '<'):
+            depth = 0
+            k = a + 2
+            while k < n:
+                if is_p(toks[k], '<'):
+                    depth += 1
+                elif is_p(toks[k], '>'):
+                    depth -= 1
+                    if depth == 0:
+                        break
+                k += 1
+            turbofish = _flat(toks[a + 3:k])
+            a = next_sig(toks, k + 1)
+        if a >= n or not is_p(toks[a], '('):
+            break
+        cl = match_close(toks, a)
+        stages.append((toks[nm][1], toks[a + 1:cl], turbofish))
+        j = cl + 1
+        if toks[nm][1] in R26_TERMINALS:
+            break
+    if not stages or stages[-1][0] not in R26_TERMINALS:
+        return None, j
+    parsed = []
+    for (name, arg, tf) in stages:
+        if name in ('filter', 'map', 'filter_map', 'for_each'):
+            c = _parse_closure(arg)
+            if c is None:
+                return None, j
+            parsed.append((name, c[0], c[1], tf))
+        else:
+            if not all(x[0] in TRIVIA for x in arg):
+                return None, j
+            parsed.append((name, None, None, tf))
+    return parsed, j
+
+
+def _r26_target(parsed, out, start):
+    """collection built by collect(): turbofish, else the annotation of the `let` the chain initialises, else Vec"""
+    if parsed[-1][0] != 'collect':
+        return 'Vec'
+    ty = parsed[-1][3]
+    if not ty and start is not None:
+        e = prev_sig(out, start - 1)
+        if e >= 0 and is_p(out[e], '='):
+            k = e - 1
+            ann = []
+            while k >= 0 and not is_id(out[k], 'let') and not (out[k][0] == 'p' and out[k][1] in ';{}'):
+                ann.append(out[k])
+                k -= 1
+            if k >= 0 and is_id(out[k], 'let'):
+                txt = _flat(list(reversed(ann)))
+                if ':' in txt:
+                    ty = txt.split(':', 1)[1].strip()
+    if ty:
+        head = re.match(r'(?:std::collections::)?(\w+)', ty)
+        return head.group(1) if head else None
+    return 'Vec'
+
+
+def _r26_emit(parsed, target, source_text, ind0, P):
+    I1 = ind0 + '    '
+    lines = ['{']
+    term = parsed[-1][0]
+    if term == 'count':
+        lines.append(I1 + 'let mut %sacc: usize = 0;' % P)
+    elif term == 'collect':
+        lines.append(I1 + 'let mut %sacc = %s::new();' % (P, target))
+    lines.append(I1 + 'for %sx in %s {' % (P, source_text))
+    depth_ind = I1 + '    '
+    cur = P + 'x'
+    closers = []
+    ycount = 0
+    for (name, pat, body, tf) in parsed[:-1]:
+        if name == 'filter':
+            lines.append(depth_ind + 'let %s = &%s;' % (pat, cur))
+            lines.append(depth_ind + 'let %sc%d = %s;' % (P, len(closers), _body_text(body, depth_ind)))
+            lines.append(depth_ind + 'if %sc%d {' % (P, len(closers)))
+            closers.append(depth_ind + '}')
+            depth_ind += '    '
+        elif name == 'map':
+            ycount += 1
+            nxt = '%sy%d' % (P, ycount)
+            lines.append(depth_ind + 'let %s = %s;' % (pat, cur))
+            lines.append(depth_ind + 'let %s = %s;' % (nxt, _body_text(body, depth_ind)))
+            cur = nxt
+        elif name == 'filter_map':
+            ycount += 1
+            nxt = '%sy%d' % (P, ycount)
+            lines.append(depth_ind + 'let %s = %s;' % (pat, cur))
+            lines.append(depth_ind + 'let %so%d = %s;' % (P, ycount, _body_text(body, depth_ind)))
+            lines.append(depth_ind + 'if let Some(%s) = %so%d {' % (nxt, P, ycount))
+            closers.append(depth_ind + '}')
+            depth_ind += '    '
+            cur = nxt
+        elif name == 'copied':
+            ycount += 1
+            nxt = '%sy%d' % (P, ycount)
+            lines.append(depth_ind + 'let %s = *%s;' % (nxt, cur))
+            cur = nxt
+        elif name == 'cloned':
+            ycount += 1
+            nxt = '%sy%d' % (P, ycount)
+            lines.append(depth_ind + 'let %s = %s.clone();' % (nxt, cur))
+            cur = nxt
+    if term == 'count':
+        lines.append(depth_ind + '%sacc += 1;' % P)
+    elif term == 'for_each':
+        (name, pat, body, tf) = parsed[-1]
+        lines.append(depth_ind + 'let %s = %s;' % (pat, cur))
+        lines.append(depth_ind + '%s;' % _body_text(body, depth_ind))
+    elif target == 'Vec':
+        lines.append(depth_ind + '%sacc.push(%s);' % (P, cur))
+    elif target == 'HashSet':
+        lines.append(depth_ind + '%sacc.insert(%s);' % (P, cur))
+    else:
+        lines.append(depth_ind + '%sacc.insert(%s.0, %s.1);' % (P, cur, cur))
+    for c in reversed(closers):
+        lines.append(c)
+    lines.append(I1 + '}')
+    if term != 'for_each':
+        lines.append(I1 + '%sacc' % P)
+    lines.append(ind0 + '}')
+    return lines
+
+
+def _indent_of_line_containing(out, start):
+    line_start = start
+    while line_start > 0 and not (out[line_start - 1][0] == 'ws' and '\n' in out[line_start - 1][1]):
+        line_start -= 1
+    if line_start > 0:
+        return out[line_start - 1][1].rsplit('\n', 1)[1]
+    if out and out[0][0] == 'ws':
+        return out[0][1].rsplit('\n', 1)[-1]
+    return ''
+
+
 def r26_iter_chains(toks, counts):
-    """`E.iter().filter(|P| C).map(|Q| F).collect()` (sources iter/into_iter/keys/values; adapters filter, map, filter_map, copied,
-    cloned; terminals collect, count) becomes a block with an explicit loop:
-        { let mut itN_acc = Vec::new(); for itN_x in E.iter() { let P = &itN_x; let itN_c = C; if itN_c { let Q = itN_x; let itN_y = F;
-          itN_acc.push(itN_y); } } itN_acc }
-    The closure parameters and bodies are the source's own tokens; evaluation order and the number of closure calls per element are
-    those of the lazy adapters. Chains with any other adapter, with closures that `return`/`?`, or without a terminal are left alone."""
+    """`E.iter().filter(|P| C).map(|Q| F).collect()` -- sources `.iter()`, `.into_iter()`, `.keys()`, `.values()` or a drain stand-in call
+    (`drain_all(..)`, `drain_map(..)`, `drain_hashmap(..)`, rule R5); adapters filter, map, filter_map, copied, cloned; terminals
+    collect, count, for_each -- becomes a block with an explicit loop:
+        { let mut itN_acc = Vec::new(); for itN_x in E.iter() { let P = &itN_x; let itN_c0 = C; if itN_c0 { let Q = itN_x; let itN_y1 = F;
+          itN_acc.push(itN_y1); } } itN_acc }
+    (`for_each(|Q| B)` ends in `let Q = itN_x; B;` and the block has no value).  The closure parameters and bodies are the source's own
+    tokens; evaluation order and the number of closure calls per element are those of the lazy adapters. Chains with any other
+    adapter, with closures that `return`/`?`, or without a terminal are left alone."""
     out = []
     i = 0
     n = len(toks)
@@ -1998,175 +2129,45 @@ def r26_iter_chains(toks, counts):
             if nx < n and toks[nx][0] == 'id' and toks[nx][1] in R26_SOURCES:
                 op = next_sig(toks, nx + 1)
                 if op < n and is_p(toks[op], '(') and all(x[0] in TRIVIA for x in toks[op + 1:match_close(toks, op)]):
-                    src_end = match_close(toks, op)
-                    stages = []
-                    j = src_end + 1
-                    ok = True
-                    while True:
-                        d = next_sig(toks, j)
-                        if d >= n or not is_p(toks[d], '.'):
-                            break
-                        nm = next_sig(toks, d + 1)
-                        if nm >= n or toks[nm][0] != 'id' or toks[nm][1] not in R26_ADAPTERS + R26_TERMINALS:
-                            break
-                        a = next_sig(toks, nm + 1)
-                        turbofish = None
-                        if a + 2 < n and is_p(toks[a], ':') and is_p(toks[a + 1], ':') and is_p(toks[a + 2], '<'):
-                            depth = 0
-                            k = a + 2
-                            while k < n:
-                                if is_p(toks[k], '<'):
-                                    depth += 1
-                                elif is_p(toks[k], '>'):
-                                    depth -= 1
-                                    if depth == 0:
-                                        break
-                                k += 1
-                            turbofish = _flat(toks[a + 3:k])
-                            a = next_sig(toks, k + 1)
-                        if a >= n or not is_p(toks[a], '('):
-                            break
-                        cl = match_close(toks, a)
-                        stages.append((toks[nm][1], toks[a + 1:cl], turbofish))
-                        j = cl + 1
-                        if toks[nm][1] in R26_TERMINALS:
-                            break
-                    if stages and stages[-1][0] in R26_TERMINALS:
-                        parsed = []
-                        for (name, arg, tf) in stages:
-                            if name in ('filter', 'map', 'filter_map'):
-                                c = _parse_closure(arg)
-                                if c is None:
-                                    ok = False
-                                    break
-                                parsed.append((name, c[0], c[1], tf))
-                            else:
-                                if not all(x[0] in TRIVIA for x in arg):
-                                    ok = False
-                                    break
-                                parsed.append((name, None, None, tf))
-                        # target collection of collect()
-                        target = 'Vec'
-                        if ok and parsed[-1][0] == 'collect':
-                            tf = parsed[-1][3]
-                            ty = None
-                            if tf:
-                                ty = tf
-                            else:
-                                # `let NAME: TYPE = <chain>` -- find the annotation of the enclosing let, if the chain is its initializer
-                                end = len(out) - 1
-                                try:
-                                    start = _postfix_start(out, end)
-                                except ExtractError:
-                                    start = None
-                                if start is not None:
-                                    e = prev_sig(out, start - 1)
-                                    if e >= 0 and is_p(out[e], '='):
-                                        k = e - 1
-                                        ann = []
-                                        while k >= 0 and not is_id(out[k], 'let') and not (out[k][0] == 'p' and out[k][1] in ';{}'):
-                                            ann.append(out[k])
-                                            k -= 1
-                                        if k >= 0 and is_id(out[k], 'let'):
-                                            txt = _flat(list(reversed(ann)))
-                                            if ':' in txt:
-                                                ty = txt.split(':', 1)[1].strip()
-                            if ty:
-                                head = re.match(r'(?:std::collections::)?(\w+)', ty)
-                                target = head.group(1) if head else None
-                            if target not in ('Vec', 'HashSet', 'HashMap'):
-                                ok = False
-                        if ok:
-                            try:
-                                end = len(out) - 1
-                                start = _postfix_start(out, end)
-                            except ExtractError:
-                                ok = False
-                        if ok:
+                    parsed, j = _r26_parse_stages(toks, match_close(toks, op) + 1)
+                    if parsed is not None:
+                        try:
+                            start = _postfix_start(out, len(out) - 1)
+                        except ExtractError:
+                            start = None
+                        target = _r26_target(parsed, out, start) if start is not None else None
+                        if start is not None and target in ('Vec', 'HashSet', 'HashMap'):
                             serial += 1
-                            P = 'it%d_' % serial
-                            recv_toks = out[start:]
-                            recv = _flat(recv_toks)
-                            ind0 = _line_indent(out, start) if start < len(out) else ''
-                            # indentation of the line the chain starts on
-                            k = start
-                            line_start = start
-                            while line_start > 0 and not (out[line_start - 1][0] == 'ws' and '\n' in out[line_start - 1][1]):
-                                line_start -= 1
-                            ind0 = ''
-                            if line_start > 0:
-                                ind0 = out[line_start - 1][1].rsplit('\n', 1)[1]
-                            elif out and out[0][0] == 'ws':
-                                ind0 = out[0][1].rsplit('\n', 1)[-1]
-                            I1 = ind0 + '    '
-                            lines = ['{']
-                            term = parsed[-1][0]
-                            if term == 'count':
-                                lines.append(I1 + 'let mut %sacc: usize = 0;' % P)
-                            else:
-                                lines.append(I1 + 'let mut %sacc = %s::new();' % (P, target))
-                            lines.append(I1 + 'for %sx in %s.%s() {' % (P, recv, toks[nx][1]))
-                            depth_ind = I1 + '    '
-                            cur = P + 'x'
-                            closers = []
-                            ycount = 0
-                            for (name, pat, body, tf) in parsed[:-1]:
-                                if name == 'filter':
-                                    lines.append(depth_ind + 'let %s = &%s;' % (pat, cur))
-                                    lines.append(depth_ind + 'let %sc%d = %s;' % (P, len(closers), _body_text(body, depth_ind)))
-                                    lines.append(depth_ind + 'if %sc%d {' % (P, len(closers)))
-                                    closers.append(depth_ind + '}')
-                                    depth_ind += '    '
-                                elif name == 'map':
-                                    ycount += 1
-                                    nxt = '%sy%d' % (P, ycount)
-                                    lines.append(depth_ind + 'let %s = %s;' % (pat, cur))
-                                    lines.append(depth_ind + 'let %s = %s;' % (nxt, _body_text(body, depth_ind)))
-                                    cur = nxt
-                                elif name == 'filter_map':
-                                    ycount += 1
-                                    nxt = '%sy%d' % (P, ycount)
-                                    lines.append(depth_ind + 'let %s = %s;' % (pat, cur))
-                                    lines.append(depth_ind + 'let %so%d = %s;' % (P, ycount, _body_text(body, depth_ind)))
-                                    lines.append(depth_ind + 'if let Some(%s) = %so%d {' % (nxt, P, ycount))
-                                    closers.append(depth_ind + '}')
-                                    depth_ind += '    '
-                                    cur = nxt
-                                elif name == 'copied':
-                                    ycount += 1
-                                    nxt = '%sy%d' % (P, ycount)
-                                    lines.append(depth_ind + 'let %s = *%s;' % (nxt, cur))
-                                    cur = nxt
-                                elif name == 'cloned':
-                                    ycount += 1
-                                    nxt = '%sy%d' % (P, ycount)
-                                    lines.append(depth_ind + 'let %s = %s.clone();' % (nxt, cur))
-                                    cur = nxt
-                            if term == 'count':
-                                lines.append(depth_ind + '%sacc += 1;' % P)
-                            elif target == 'Vec':
-                                lines.append(depth_ind + '%sacc.push(%s);' % (P, cur))
-                            elif target == 'HashSet':
-                                lines.append(depth_ind + '%sacc.insert(%s);' % (P, cur))
-                            else:
-                                lines.append(depth_ind + '%sacc.insert(%s.0, %s.1);' % (P, cur, cur))
-                            for c in reversed(closers):
-                                lines.append(c)
-                            lines.append(I1 + '}')
-                            lines.append(I1 + '%sacc' % P)
-                            lines.append(ind0 + '}')
+                            recv = _flat(out[start:])
+                            ind0 = _indent_of_line_containing(out, start)
+                            lines = _r26_emit(parsed, target, '%s.%s()' % (recv, toks[nx][1]), ind0, 'it%d_' % serial)
                             del out[start:]
                             out.extend(rtok.tokenize('\n'.join(lines)))
                             counts['R26'] = counts.get('R26', 0) + 1
                             i = j
                             done = True
+        elif t[0] == 'id' and t[1] in R26_STANDIN_SOURCES:
+            op = next_sig(toks, i + 1)
+            if op < n and is_p(toks[op], '('):
+                cl = match_close(toks, op)
+                parsed, j = _r26_parse_stages(toks, cl + 1)
+                if parsed is not None:
+                    target = _r26_target(parsed, out, len(out))
+                    if target in ('Vec', 'HashSet', 'HashMap'):
+                        serial += 1
+                        ind0 = _indent_of_line_containing(out + [t], len(out))
+                        lines = _r26_emit(parsed, target, _flat(toks[i:cl + 1]), ind0, 'it%d_' % serial)
+                        out.extend(rtok.tokenize('\n'.join(lines)))
+                        counts['R26'] = counts.get('R26', 0) + 1
+                        i = j
+                        done = True
         if not done:
             out.append(t)
             i += 1
     return out
 
 
-def r28_closure_signatures(toks, counts, sigs):
+def _r28_walk(toks, counts, sigs, state):
     """the k-th closure of the item gets the signature given by the region option `R28=SIG1,SIG2,..` with SIG = `T1;T2->RET`
     (`_` keeps the parameter as written): `|t| BODY` -> `|t: T1| -> (cK_r: RET)` + newline + `{ BODY }` (a block body keeps its own
     braces, its `{` goes on its own line).  Only type annotations are added -- what the compiler infers is written out, and rustc
@@ -2174,7 +2175,7 @@ def r28_closure_signatures(toks, counts, sigs):
     out = []
     i = 0
     n = len(toks)
-    k = 0
+    k = state[0]
     STARTERS = ('=', '(', ',', '{', ';')
     while i < n:
         t = toks[i]
@@ -2200,6 +2201,8 @@ def r28_closure_signatures(toks, counts, sigs):
         params = toks[i + 1:j]
         sig = sigs[k]
         k += 1
+        state[0] = k
+        my_k = k
         if '->' not in sig:
             raise ExtractError('R28: signature %r lacks `->`' % sig)
         hoist = sig.startswith('let:')
@@ -2241,7 +2244,7 @@ def r28_closure_signatures(toks, counts, sigs):
         b = next_sig(toks, j + 1)
         if b + 1 < n and is_p(toks[b], '-') and is_p(toks[b + 1], '>'):
             raise ExtractError('R28: closure already has a return type')
-        header = '|%s| -> (c%d_r: %s)' % (', '.join(new_params), k, ret)
+        header = '|%s| -> (c%d_r: %s)' % (', '.join(new_params), my_k, ret)
         hoist_at = None
         if hoist:
             # `let:` -- a closure written inline as a call argument is bound to a name first (closure creation has no effect),
@@ -2267,14 +2270,15 @@ def r28_closure_signatures(toks, counts, sigs):
             stmt_ind = _line_indent(out, hoist_at) if hoist_at < len(out) else ind
             saved_tail = out[hoist_at:]
             del out[hoist_at:]
-            out += rtok.tokenize('let c%d_f = ' % k)
+            out += rtok.tokenize('let c%d_f = ' % my_k)
             ind = stmt_ind
         out += rtok.tokenize(header)
         if is_p(toks[b], '{'):
             c = match_close(toks, b)
             out += [('ws', '\n' + ind)]
             body_end = c
-            out += toks[b:c + 1]
+            out += [toks[b]] + _r28_walk(toks[b + 1:c], counts, sigs, state) + [toks[c]]
+            k = state[0]
         else:
             # expression body: up to the `,` / `;` / closing bracket at depth 0
             e = b
@@ -2285,15 +2289,82 @@ def r28_closure_signatures(toks, counts, sigs):
             body = toks[b:e]
             while body and body[-1][0] == 'ws':
                 body.pop()
+            nbody = len(body)
+            body = _r28_walk(body, counts, sigs, state)
+            k = state[0]
             out += [('ws', '\n' + ind), ('p', '{'), ('ws', '\n' + ind + '    ')] + _indent_more(body) + [('ws', '\n' + ind), ('p', '}')]
-            body_end = b + len(body) - 1
+            body_end = b + nbody - 1
         if hoist:
-            out += [('p', ';'), ('ws', '\n' + ind)] + saved_tail + [('id', 'c%d_f' % k)]
+            out += [('p', ';'), ('ws', '\n' + ind)] + saved_tail + [('id', 'c%d_f' % my_k)]
         counts['R28'] = counts.get('R28', 0) + 1
         i = body_end + 1
-    if k < len(sigs):
-        raise ExtractError('R28: %d closure signatures given, %d closures found' % (len(sigs), k))
+    state[0] = k
     return out
+
+
+def r28_closure_signatures(toks, counts, sigs):
+    state = [0]
+    out = _r28_walk(toks, counts, sigs, state)
+    if state[0] < len(sigs):
+        raise ExtractError('R28: %d closure signatures given, %d closures found' % (len(sigs), state[0]))
+    return out
+
+
+R29_FORMS = {
+    # method: (pattern of the value arm, arm body template, other arm)
+    'is_some_and': ('Some(%s)', '%s', 'None => false'),
+    'is_ok_and': ('Ok(%s)', '%s', 'Err(_) => false'),
+    'and_then': ('Some(%s)', '%s', 'None => None'),
+}
+
+
+def r29_inline_combinators(toks, counts):
+    """`E.is_some_and(|P| B)` -> `match E { Some(P) => B, None => false }`; `E.is_ok_and(|P| B)` -> `match E { Ok(P) => B, Err(_) => false }`;
+    `E.and_then(|P| B)` (Option) -> `match E { Some(P) => B, None => None }`: the definitions of the combinators, so that no closure
+    (which would need a hand-written signature to carry a contract) is left.  E is the whole postfix expression before the call; the
+    closure parameter and body are the source's own tokens.  Closures containing `return`/`?` or typed parameters are left alone."""
+    changed = True
+    while changed:
+        changed = False
+        out = []
+        i = 0
+        n = len(toks)
+        while i < n:
+            t = toks[i]
+            if is_p(t, '.') and not changed:
+                nx = next_sig(toks, i + 1)
+                if nx < n and toks[nx][0] == 'id' and toks[nx][1] in R29_FORMS:
+                    op = next_sig(toks, nx + 1)
+                    if op < n and is_p(toks[op], '('):
+                        cl = match_close(toks, op)
+                        c = _parse_closure(toks[op + 1:cl])
+                        # innermost first: the closure body must not itself contain a combinator call still to be rewritten
+                        if c is not None and not any(x[0] == 'id' and x[1] in R29_FORMS for x in c[1]):
+                            try:
+                                start = _postfix_start(out, len(out) - 1)
+                            except ExtractError:
+                                start = None
+                            if start is not None:
+                                pat, body = c
+                                form = R29_FORMS[toks[nx][1]]
+                                recv = _flat(out[start:])
+                                ind0 = _indent_of_line_containing(out, start)
+                                I1 = ind0 + '    '
+                                txt = 'match %s {\n%s%s => %s,\n%s%s,\n%s}' % (recv, I1, form[0] % pat, form[1] % _body_text(body, I1), I1, form[2], ind0)
+                                after = next_sig(toks, cl + 1)
+                                if after < n and (is_p(toks[after], '.') or is_p(toks[after], '?')):
+                                    # the chain goes on: the match becomes a parenthesised receiver
+                                    txt = '(' + txt + ')'
+                                del out[start:]
+                                out.extend(rtok.tokenize(txt))
+                                counts['R29'] = counts.get('R29', 0) + 1
+                                i = cl + 1
+                                changed = True
+                                continue
+            out.append(t)
+            i += 1
+        toks = out
+    return toks
 
 
 def cleanup_lines(text):
@@ -2331,7 +2402,7 @@ def extract_region(src_text, path, opts=None):
         elif r == 'R4':
             item = r4_ref_patterns(item, counts)
         elif r == 'R5':
-            item = r5_drain(item, counts)
+            item = r5_drain(item, counts, map_fn=opts.get('drain_fn', 'drain_map'))
         elif r == 'R7':
             item = r7_visibility(item, counts)
             item = r7b_struct_pub(item, counts)
@@ -2353,11 +2424,13 @@ def extract_region(src_text, path, opts=None):
                 item = r23_split_or_pattern_guard(item, counts)
             if 'R24' in opts.get('rules', ()):
                 item = r24_name_tail_expr(item, counts)
+            if 'R26' not in opts.get('skip', ()):
+                item = r26_iter_chains(item, counts)
+            if 'R29' not in opts.get('skip', ()):
+                item = r29_inline_combinators(item, counts)
             if 'R28' in opts.get('rules', ()):
                 item = r28_closure_signatures(item, counts, opts.get('r28_sigs', []))
             item = r21_map_err_anyhow(item, counts)
-            if 'R26' not in opts.get('skip', ()):
-                item = r26_iter_chains(item, counts)
             item = r25_vec_extend(item, counts)
             item = r10b_if_continue(item, counts)
             item = r10c_continue_flag(item, counts)
